@@ -120,6 +120,10 @@ def jobs_simple(prop, profile="general", matrix=None, miri_tables=None):
             big = ["--big"] if tier == T else []
             js.extend(lay("lifecycle", "C04", fl, "lifecycle", big, shards=2) for fl in ("dbg", "rel", "asan"))
             js.append(miri("lifecycle-sample", "layoutmon", ["--prop", "C04", "--table", "lifecycle", "--shardmult", 4 if tier == Q else 1]))
+        if prop == "C05":
+            # a weak pointer held inside any provided container or behind a trait object (dyn_collect!)
+            # never keeps its target's value alive: weakly held targets are gone after two cycles
+            js.append(trc("container-survival", "C05", "dbg", "impls", shards=1, extra=["--only", "survival:containers"]))
         if prop == "C02":
             # end-to-end exactness through every provided container and through trait objects:
             # weakly held targets must be gone after two cycles, strongly held ones alive
